@@ -266,6 +266,10 @@ def scenario_list(rng, tier):
     if not tree_has_hooks():
         # nothing can be forced on a tree without the guarded hooks: only the unforced runs make sense
         scs = [sc for sc in scs if sc["position"] == "free"]
+    # Unforced runs first: they need no cooperation from the sync hooks, so a change that makes the forced runs hang
+    # against the harness (each then uses up its cap, and together the tier's time budget) cannot starve them - and
+    # they are the runs that show a grader stuck waiting for a student thread that never ends (seed C14_H).
+    scs.sort(key=lambda sc: 0 if sc["position"] == "free" else 1)
     return scs
 
 
